@@ -64,6 +64,7 @@ TRANSLATORS = [
     # (script, source relative to REPO (or "" for the whole package), output under coq/Gen)
     ("json_util_tr.py", "file_builder/json_util.py", "JsonUtilGen.v"),
     ("locks_tr.py", "file_builder", "Locks.v"),
+    ("edges_tr.py", "file_builder", "Edges.v"),
     ("decisions_tr.py", "file_builder", "Decisions.v"),
     ("sites_tr.py", "file_builder", "Sites.v"),
 ]
